@@ -255,7 +255,7 @@ var ruleC1 = &Rule{
 					procLit, _ = kv.Value.(*ast.FuncLit)
 				}
 			}
-			// table literal: the first string assigned to a local that feeds the Sprintf
+			// table literal: the first string assigned to a local that feeds the Sprintf …
 			ast.Inspect(fi.Decl.Body, func(n ast.Node) bool {
 				if as, ok := n.(*ast.AssignStmt); ok && as.Tok == token.DEFINE && len(as.Rhs) == 1 && table == "" {
 					if s, ok := constString(info, as.Rhs[0]); ok && regexp.MustCompile(`^[a-z_0-9]+$`).MatchString(s) {
@@ -264,6 +264,22 @@ var ruleC1 = &Rule{
 				}
 				return true
 			})
+			// … or, when the name is computed by a helper (base name + cluster suffix), the first constant string of the
+			// constructor that names a table of the migration scripts
+			if _, known := sch[table]; !known {
+				ast.Inspect(fi.Decl.Body, func(n ast.Node) bool {
+					if bl, ok := n.(*ast.BasicLit); ok && bl.Kind == token.STRING {
+						if s, ok := constString(info, bl); ok {
+							if _, isTable := sch[s]; isTable {
+								if _, known := sch[table]; !known {
+									table = s
+								}
+							}
+						}
+					}
+					return true
+				})
+			}
 			m := reInsertCols.FindStringSubmatch(insertText)
 			_, _ = acqLit, procLit
 			// the two function values of the service, resolved on SSA (a literal, a named function, a method value)
@@ -542,7 +558,30 @@ var ruleC2 = &Rule{
 								}
 								if fc, ok := arg.(*ast.CallExpr); ok && len(fc.Args) == 2 {
 									if o := calleeObj(info, fc); o != nil && o.Name() == "fastFillArray" {
-										if lc, ok := ast.Unparen(fc.Args[0]).(*ast.CallExpr); ok {
+										lenArg := ast.Unparen(fc.Args[0])
+										// n := len(param) kept in a local that is assigned once
+										if nid, ok := lenArg.(*ast.Ident); ok {
+											nobj := info.Uses[nid]
+											defs := 0
+											var def ast.Expr
+											ast.Inspect(fi.Decl.Body, func(m ast.Node) bool {
+												if das, ok := m.(*ast.AssignStmt); ok {
+													for i, lh := range das.Lhs {
+														if l, ok := lh.(*ast.Ident); ok && (info.Defs[l] == nobj || info.Uses[l] == nobj) && nobj != nil {
+															defs++
+															if i < len(das.Rhs) {
+																def = das.Rhs[i]
+															}
+														}
+													}
+												}
+												return true
+											})
+											if defs == 1 && def != nil {
+												lenArg = ast.Unparen(def)
+											}
+										}
+										if lc, ok := lenArg.(*ast.CallExpr); ok {
 											if lid, ok := lc.Fun.(*ast.Ident); ok && lid.Name == "len" && len(lc.Args) == 1 {
 												if pid, ok := ast.Unparen(lc.Args[0]).(*ast.Ident); ok && params[info.Uses[pid]] {
 													okSpread = true
@@ -676,6 +715,10 @@ func (l *lenClasses) signature(obj types.Object, isField bool) string {
 							}
 							continue
 						}
+						if o := calleeObj(info, r); o != nil && o.Name() == "fastFillArray" && len(r.Args) == 2 {
+							evs = append(evs, "newN("+l.lenDesc(r.Args[0], 1)+")")
+							continue
+						}
 						evs = append(evs, "other("+l.c.normText(rhs)+")|"+blockID)
 					case *ast.SliceExpr:
 						if refers(r.X) && r.Low == nil && r.High != nil {
@@ -692,6 +735,18 @@ func (l *lenClasses) signature(obj types.Object, isField bool) string {
 		scan(fi.Decl.Body.List, fi.Decl.Name.Name+"@body")
 	}
 	sort.Strings(evs)
+	// an untouched parameter: its length is whatever the caller passes (resolved at the call sites by rule C3)
+	if len(evs) == 0 && !isField && l.fi.Decl.Type.Params != nil {
+		i := 0
+		for _, f := range l.fi.Decl.Type.Params.List {
+			for _, n := range f.Names {
+				if l.fi.Pkg.TypesInfo.Defs[n] == obj {
+					return fmt.Sprintf("param#%d", i)
+				}
+				i++
+			}
+		}
+	}
 	// a variable that is only ever created with a fixed length is that length
 	if len(evs) == 1 && strings.HasPrefix(evs[0], "newN(") {
 		return strings.TrimSuffix(strings.TrimPrefix(evs[0], "newN("), ")")
@@ -784,6 +839,59 @@ var ruleC3 = &Rule{
 					}
 				}
 				key := fmt.Sprintf("%s onEntries call #%d", fi.Name(), n)
+				// arrays that are parameters of a forwarding helper: decide at every call site of the helper
+				usesParams := false
+				for _, cl := range classes {
+					if strings.HasPrefix(cl, "param#") {
+						usesParams = true
+					}
+				}
+				if usesParams {
+					fnObj := info.Defs[fi.Decl.Name]
+					sites := 0
+					same = true
+					var parts []string
+					for _, cfi := range pkgFs {
+						cinfo := cfi.Pkg.TypesInfo
+						ast.Inspect(cfi.Decl.Body, func(k ast.Node) bool {
+							cc, ok := k.(*ast.CallExpr)
+							if !ok || calleeObj(cinfo, cc) != fnObj {
+								return true
+							}
+							sites++
+							clc := &lenClasses{c: c, fi: cfi, pkgFs: pkgFs}
+							var resolved []string
+							for _, cl := range classes {
+								if strings.HasPrefix(cl, "param#") {
+									var pi int
+									fmt.Sscanf(cl, "param#%d", &pi)
+									if pi < len(cc.Args) {
+										cl = clc.classOf(cc.Args[pi], 0)
+									}
+								}
+								resolved = append(resolved, cl)
+							}
+							for _, cl := range resolved[1:] {
+								if cl != resolved[0] {
+									same = false
+									parts = append(parts, fmt.Sprintf("at %s: %s", c.pos(cc.Pos()), strings.Join(resolved, " | ")))
+								}
+							}
+							return true
+						})
+					}
+					if sites == 0 {
+						same = false
+						parts = append(parts, "the forwarding helper has no call site")
+					}
+					if same {
+						obls = append(obls, Obl{Key: key, Pos: c.pos(call.Pos()), Status: OK, Msg: fmt.Sprintf("forwarding helper: classes agree at its %d call sites", sites)})
+					} else {
+						obls = append(obls, Obl{Key: key, Pos: c.pos(call.Pos()), Status: Violation,
+							Msg: "the per-entry arrays passed to the row builder are not provably of one length: " + shorten(strings.Join(parts, " ; "), 400)})
+					}
+					return true
+				}
 				if same {
 					obls = append(obls, Obl{Key: key, Pos: c.pos(call.Pos()), Status: OK, Msg: "class " + shorten(classes[0], 80)})
 				} else {
